@@ -1,5 +1,7 @@
 import XV.Model.SlotSched
 import XV.Model.Pow
+import XV.Model.Plug
+import XV.Model.TdElect
 import XV.Drv.Util
 /-! driver of engine `sched` (C16); op formats are documented in go/cmd/sched/main.go -/
 namespace XV.Drv.Sched
@@ -78,6 +80,154 @@ def powStep (ws : List String) : String :=
     | _, _, _, _, _ => "bad-op"
   | _ => "bad-op"
 
+/-- `<bits|x> <ts> <par>` triples of a ledger with branches; `par` = -1 or an index below the block's own -/
+def parseTree : Nat → Nat → List String → Option (List XV.Pow.TBlk × List String)
+  | 0, _, rest => some ([], rest)
+  | n + 1, i, b :: t :: p :: rest =>
+    match parseBits b, t.toInt?, p.toInt?, parseTree n (i + 1) rest with
+    | some bits, some ts, some par, some (bs, r) =>
+      if par < -1 ∨ par ≥ (i : Int) then none
+      else some (⟨bits, ts, if par < 0 then none else some par.toNat⟩ :: bs, r)
+    | _, _, _, _ => none
+  | _, _, _ => none
+
+/-- `powf`: as `pow`, the ledger being a block tree and `main` naming the tip of its main chain (which the
+plugin - and so the model - never looks at) -/
+def powfStep (ws : List String) : String :=
+  match ws with
+  | d :: g :: e :: m :: n :: rest =>
+    match d.toNat?, g.toInt?, e.toInt?, m.toNat?, n.toNat? with
+    | some d, some g, some e, some m, some n =>
+      if n < 1 then "bad-op" else
+      match parseTree n 0 rest with
+      | some (tree, [mainTip, h, par, cb, cts, hash, idok, key, sig]) =>
+        match mainTip.toNat?, h.toInt?, par.toInt?, parseBits cb, cts.toInt?, hash.toNat? with
+        | some mainTip, some h, some par, some cb, some cts, some hash =>
+          if hash ≥ 2 ^ 256 ∨ mainTip ≥ n then "bad-op" else
+          let cfg : XV.Pow.Cfg := ⟨d, g, e, m⟩
+          let legacyBad := !cfg.bitcoin && (match cb with | some b => decide (b > 256) | none => false)
+          if legacyBad then "bad-op" else
+          let idOk := flag idok "1" "0"
+          let keyOk : Option Bool := if key == "p" then some true else if key == "x" || key == "b" then some false else none
+          let sigOk : Option Bool := if sig == "v" then some true else if sig == "w" || sig == "f" then some false else none
+          match idOk, keyOk, sigOk with
+          | some idOk, some keyOk, some sigOk =>
+            let parent : Option Nat := if par ≥ 0 ∧ par < n then some par.toNat else none
+            powVerdictStr (XV.Pow.checkMinerMatchT cfg tree.toArray ⟨h, parent, cb, cts, hash, idOk, keyOk, sigOk⟩)
+          | _, _, _ => "bad-op"
+        | _, _, _, _, _, _ => "bad-op"
+      | _ => "bad-op"
+    | _, _, _, _, _ => "bad-op"
+  | _ => "bad-op"
+
+/-- consensus kind tokens of the `plug` op -/
+def plugKind (s : String) : Option XV.Plug.Kind :=
+  if s == "s0" then some ⟨0, 0⟩ else if s == "s1" then some ⟨0, 1⟩ else if s == "p" then some ⟨1, 0⟩
+  else if s == "t" then some ⟨2, 0⟩ else if s == "x" then some ⟨3, 0⟩ else none
+
+def plugName (k : XV.Plug.Kind) : String :=
+  match k.name with | 0 => "single" | 1 => "pow" | 2 => "tdpos" | _ => "poa"
+
+/-- candidate tokens: which instances' `CheckMinerMatch` the block passes (decided per plugin elsewhere) -/
+def plugSat (cand : String) : Option (XV.Plug.Kind → Bool) :=
+  if cand == "s0" then some (fun k => k == ⟨0, 0⟩)
+  else if cand == "s1" then some (fun k => k == ⟨0, 1⟩)
+  else if cand == "sp0" then some (fun k => k == ⟨0, 0⟩)
+  else if cand == "p" then some (fun k => k.name == 1)
+  else if cand == "ps0" then some (fun k => k.name == 1 || k == ⟨0, 0⟩)
+  else if cand == "t" then some (fun k => k.name == 2)
+  else if cand == "x" then some (fun k => k.name == 3)
+  else if cand == "n" then some (fun _ => false)
+  else none
+
+/-- run the events; `none` = malformed (number of `U` ≠ number of upgrades), `some none` = an upgrade whose
+fate depends on the map order -/
+def plugRun : XV.Plug.Node → List Char → List XV.Plug.Kind → Option (Option XV.Plug.Node)
+  | n, [], [] => some (some n)
+  | _, [], _ :: _ => none
+  | n, 'R' :: evs, ups => plugRun (XV.Plug.restart n) evs ups
+  | n, 'U' :: evs, k :: ups =>
+    let c : XV.Plug.Stored := if n.stored.isEmpty then [(0, n.genesis)] else n.stored
+    if XV.Plug.ambiguous c k then some none else plugRun (XV.Plug.upgrade n k) evs ups
+  | _, _, _ => none
+
+def plugStep (ws : List String) : String :=
+  match ws with
+  | [g, ups, evs, cand] =>
+    let upToks := if ups == "-" then [] else ups.splitOn ","
+    let evChars := if evs == "-" then [] else evs.toList
+    match plugKind g, upToks.mapM plugKind, plugSat cand with
+    | some g, some ups, some sat =>
+      if evChars.length > 12 then "bad-op" else
+      match plugRun (XV.Plug.boot g []) evChars ups with
+      | none => "bad-op"
+      | some none => "ambiguous"
+      | some (some n) =>
+        match XV.Plug.inForce n with
+        | none => "reject none"
+        | some k => (if XV.Plug.check n sat then "accept " else "reject ") ++ plugName k
+    | _, _, _ => "bad-op"
+  | _ => "bad-op"
+
+/-! `tdel`: tdpos vote-based election (formats in go/cmd/sched/elect.go) -/
+
+def natList (s : String) : Option (List Nat) := (s.splitOn ",").mapM String.toNat?
+
+def parseVRec (s : String) : Option XV.TdElect.VRec :=
+  if s == "-" then some .absent else if s == "!" then some .corrupt
+  else ((s.splitOn "+").mapM String.toInt?).map .ballots
+
+def parseCand (s : String) : Option (Nat × XV.TdElect.VRec) :=
+  match s.splitOn "=" with
+  | [c, v] => match c.toNat?, parseVRec v with
+    | some c, some v => some (c, v)
+    | _, _ => none
+  | _ => none
+
+def parseNRec (s : String) : Option XV.TdElect.NRec :=
+  if s == "!" then some .corrupt else if s == "~" then some (.cands [])
+  else ((s.splitOn ";").mapM parseCand).bind (fun l =>
+    if (l.map (·.1)).eraseDups.length = l.length then some (.cands l) else none)
+
+def parseSnaps (s : String) : Option (List (Nat × XV.TdElect.NRec)) :=
+  if s == "-" then some [] else
+  (s.splitOn "/").mapM (fun e =>
+    match e.splitOn "@" with
+    | [h, r] => match h.toNat?, parseNRec r with
+      | some h, some r => some (h, r)
+      | _, _ => none
+    | _ => none)
+
+def parseFault (s : String) : Option XV.TdElect.Fault :=
+  if s == "-" then some .none else if s == "n" then some .nominate else if s == "s" then some .snapshot
+  else if s.startsWith "v" then ((s.drop 1).toString.toNat?).map .vote else none
+
+def tdelVerdictStr : XV.TdElect.Verdict → String
+  | .accept => "accept" | .reject => "reject" | .panic => "panic"
+
+/-- stored terms are 0 below `start`, at least 1 and non-decreasing from `start` on, and no term holds more
+blocks than it has slots -/
+def termsOk (start slots : Nat) (terms : List Nat) : Bool :=
+  (List.range terms.length).all (fun h =>
+    let t := terms[h]?.getD 0
+    if h < start then t == 0
+    else decide (t ≥ 1) && (h == start || decide (terms[h - 1]?.getD 0 ≤ t))
+      && decide ((terms.filter (· == t)).length ≤ slots))
+
+def tdelStep (ws : List String) : String :=
+  match ws with
+  | [pn, bn, start, init, terms, snaps, fault, h, term, pos, bp, prop] =>
+    match pn.toNat?, bn.toNat?, start.toNat?, natList init, natList terms, parseSnaps snaps, parseFault fault with
+    | some pn, some bn, some start, some init, some terms, some snaps, some fault =>
+      match h.toNat?, term.toNat?, pos.toNat?, bp.toNat?, prop.toNat? with
+      | some h, some term, some pos, some bp, some prop =>
+        if pn < 1 ∨ pn > 8 ∨ bn < 1 ∨ bn > 8 ∨ start < 1 ∨ terms.length < start + 1 ∨ terms.length > 200 ∨ h < 1 ∨ term < 1 ∨ pos ≥ pn ∨ bp ≥ bn
+            ∨ !termsOk start (pn * bn) terms then "bad-op" else
+        tdelVerdictStr (XV.TdElect.check ⟨start, init, pn, bn, terms, snaps⟩ fault h term pos bp prop)
+      | _, _, _, _, _ => "bad-op"
+    | _, _, _, _, _, _, _ => "bad-op"
+  | _ => "bad-op"
+
 def step (_ : Unit) (line : String) : Unit × String :=
   let ws := words line
   ((), match ws with
@@ -119,7 +269,9 @@ def step (_ : Unit) (line : String) : Unit × String :=
     match ints rest with
     | some [period, bn, nvals, mode, ts, prop] =>
       -- mode 3: the set in force (contract snapshot) has one member more than the set held in memory
-      let vals := if mode = 0 then [] else if mode = 3 then List.range (nvals.toNat + 1) else List.range nvals.toNat
+      -- modes 4, 5, 6: the validator record cannot be read / decoded while the block is checked: no validator set
+      if mode < 0 ∨ mode > 6 then "bad-op" else
+      let vals := if mode = 0 ∨ mode ≥ 4 then [] else if mode = 3 then List.range (nvals.toNat + 1) else List.range nvals.toNat
       verdictStr (xpoaAccept period bn vals ts (propId prop))
     | _ => "bad-op"
   | ["single", idok, prop, key, sig] =>
@@ -131,6 +283,9 @@ def step (_ : Unit) (line : String) : Unit × String :=
     | some a, some b, some c, some d => verdictStr (singleAccept a b c d)
     | _, _, _, _ => "bad-op"
   | "pow" :: rest => powStep rest
+  | "powf" :: rest => powfStep rest
+  | "plug" :: rest => plugStep rest
+  | "tdel" :: rest => tdelStep rest
   | _ => "bad-op")
 
 def run : IO Unit := loop step ()
